@@ -135,7 +135,8 @@ class World:
             self.objs[act[2]] = (self.G.Grid.from_dict(d), [])
         elif op == "clone":
             g, c = self.objs[act[1]]
-            self.objs[act[2]] = (g.clone(), list(c))
+            # clone() and clone(dtype) with the grid's own dtype must both give independent copies
+            self.objs[act[2]] = (g.clone() if n % 2 else g.clone(self.t), list(c))
         elif op == "clip":
             _, o, o2, r0, r1, c0, c1 = act
             g, _ = self.objs[o]
@@ -234,6 +235,12 @@ def catchment_roundtrip(ctx, gridmod, ncases):
         fd = [int(rng.choice([1, 2, 4, 4, 2, 8, 16, 0])) for _ in range(nr * nc)]
         flow = make_grid(gridmod.Grid, nr, nc, fd)
         cat = gridmod.Catchment("cat%d" % tries, flow)
+        # the catchment works on its own copy of the flow direction grid
+        f0 = flow.data.copy()
+        cat.flowdir.data[0, 0] = 77
+        if not np.array_equal(flow.data, f0):
+            ctx.violation("Catchment:flowdir-shared", "writing to catchment.flowdir changed the caller's grid", {"nr": nr, "nc": nc})
+        cat.flowdir.data[0, 0] = f0[0, 0]
         o = int(rng.integers(0, nr * nc))
         inl = None if rng.random() < 0.5 else sorted(set(int(v) for v in rng.integers(0, nr * nc, size=int(rng.integers(1, 3)))))
         try:
